@@ -4,7 +4,8 @@ from __future__ import annotations
 import dataclasses
 import sys
 
-sys.path.insert(0, "/repo/python")
+import os
+sys.path.insert(0, os.path.join(os.environ.get("PYVC_REPO", "/repo"), "python"))
 
 from lsst.daf.relation import *  # noqa: F401,F403
 from lsst.daf.relation import iteration, sql  # noqa: F401
